@@ -14,7 +14,7 @@
    op 2  SampleCI:  11 2 N lo hi qbits weighted sortedflag status xs_before xs_after qret loret hiret qref
          (status 0 returned, 2 panicked; qref = Quantile(q) of a sorted copy, computed by the harness) *)
 From MM Require Import Base.Num Base.GFSum Model.Choose Model.Binom Model.QuantileCI Check.C06.
-From Coq Require Import Qround.
+From Coq Require Import Qround Sorting.Mergesort Orders.
 Local Open Scope Z_scope.
 
 (* Confidence "equals the exact Binomial(n,q) probability of the buckets": same absolute tolerance
@@ -118,6 +118,25 @@ Fixpoint run_small (P : Z -> Q) (n : Z) (x : Z) (qbits : Z) (g : list (list (st 
       else verdict code (Z.lor tag t) idx dg
   end.
 
+(* ---- op 0: "intervals are nested as c grows", checked on the observations of a line themselves: the items
+   are sorted by level; consecutive items must be nested, and equal levels must give equal intervals ---- *)
+Module ItemOrder <: TotalLeBool.
+  Definition t := (Q * qobs)%type.
+  Definition leb (a b : t) : bool := Qle_bool (fst a) (fst b).
+  Theorem leb_total : forall a1 a2, leb a1 a2 = true \/ leb a2 a1 = true.
+  Proof. intros a b. apply QOrder.leb_total. Qed.
+End ItemOrder.
+Module ItemSort := Sort ItemOrder.
+Fixpoint nested_chain (l : list (Q * qobs)) : bool :=
+  match l with
+  | a :: ((b :: _) as t) =>
+      (o_lo (snd b) <=? o_lo (snd a)) && (o_hi (snd a) <=? o_hi (snd b)) &&
+      (negb (Qle_bool (fst b) (fst a)) || ((o_lo (snd a) =? o_lo (snd b)) && (o_hi (snd a) =? o_hi (snd b)))) &&
+      nested_chain t
+  | _ => true
+  end.
+Definition nested_ok (items : list (Q * qobs)) : bool := nested_chain (ItemSort.sort items).
+
 Definition ulps (k : Z) (scale : Q) : Q := (inject_Z k * ulp53 * Qabs scale)%Q.
 
 (* ---- op 1: the bands the widening loop went through (mass, CDF at the upper end, CDF at the lower end) ---- *)
@@ -160,7 +179,8 @@ Definition check_C11 (line : list Z) : list Z :=
               let ws := binom_weights n (Qnum q) (d - Qnum q) in
               let exact := exact_regime n q in
               match qci_graph (scaled_pmf n ws) (if exact then 0%Q else ieps_border) n (mode_candidates n q exact) with
-              | Some g => run_small (scaled_pmf n ws) n (mode_x n q) qb g e exact items 0 0 false
+              | Some g => if negb (nested_ok items) then verdict V_MISMATCH 1 (-1) [10]
+                          else run_small (scaled_pmf n ws) n (mode_x n q) qb g e exact items 0 0 false
               | None => verdict V_MALFORMED 0 (-1) [7]
               end
           | _ => verdict V_MALFORMED 0 (-1) []
